@@ -87,6 +87,12 @@ def run(chk):
             realm = core.call_real(lambda: cl.graph_clustering(trip, nodes, method, **kw))
             ops.append({"op": "components", "n": n, "edges": edges})
             checks.append((method, meta, realm, edges, labels))
+    # the shortest neighbour lists: a single triplet (a capped or two-collection search can return just one)
+    for trip in ([(0, 1, 1)], [(1, 0, 2)], [(2, 0, 1)], [(1, 2, 0)]):
+        labels = ["n0", "n1", "n2"]
+        ops.append({"op": "graph_clustering_cc", "n": 3, "edges": [[t[0], t[1]] for t in trip]})
+        checks.append(("cc", {"xs": labels, "k": None, "engine": "single-triplet", "nodes": "list", "n_edges": 1},
+                       core.call_real(lambda trip=trip: cl.graph_clustering(trip, labels, "cc")), [[t[0], t[1]] for t in trip], labels))
     ans = core.run_driver_parallel(ops)
     for (method, meta, real, edges, xs), a in zip(checks, ans):
         n = len(xs)
@@ -138,6 +144,29 @@ def run(chk):
                 chk.violation(f"C15|graph_clustering|{method}|merges-components", f"graph_clustering('{method}') places nodes of different "
                               "connected components in one cluster", {**meta, "real_nodes": got_nodes, "real_labels": [int(x) for x in got_labels]})
 
+    # a node collection of 70 000 with neighbour pairs at high positions (position products beyond 2^31 and 2^32): the clusters are
+    # exactly the planted ones, with the caller's labels
+    nbig = 70001
+    big_nodes = [f"s{i}" for i in range(nbig)]
+    groups_ = [[nbig - 5, nbig - 9, nbig - 2], [61000, 69990], [46342, 46343], [3, 65000]]
+    trip_big = []
+    for g_ in groups_:
+        for a_, b_ in zip(g_, g_[1:]):
+            trip_big += [(a_, b_, 1), (b_, a_, 1)]
+    for method in ("cc", "multilevel"):
+        r_ = core.call_real(lambda: cl.graph_clustering(trip_big, big_nodes, method))
+        chk.case(nontrivial_key=("large-graph", method))
+        chk.count(f"graph_clustering:{method}-large")
+        if r_[0] != "ok":
+            chk.violation(f"C15|graph_clustering|{method}|large|raises-{r_[1]}", f"graph_clustering('{method}') raised {r_[1]} on {nbig} nodes", {"n": nbig, "edges": trip_big[:8]})
+            continue
+        got_ = {}
+        for nd, c_ in zip(r_[1]["node"], r_[1]["cluster"]):
+            got_.setdefault(c_, set()).add(nd)
+        want_ = sorted(sorted(f"s{i}" for i in g_) for g_ in groups_)
+        if sorted(sorted(v) for v in got_.values()) != want_:
+            chk.violation(f"C15|graph_clustering|{method}|large|differs", f"graph_clustering('{method}') on {nbig} nodes does not return the planted "
+                          f"connected groups", {"n": nbig, "planted": groups_, "real": str(sorted(sorted(v) for v in got_.values()))[:600]})
     # ---- hierarchical_clustering = SciPy linkage / fcluster of the metric's pdist vector
     from pyrepseq.metric import Levenshtein
     hops, hchecks = [], []
